@@ -29,6 +29,7 @@ import (
 	"github.com/apache/skywalking-banyandb/pkg/encoding"
 	"github.com/apache/skywalking-banyandb/pkg/filter"
 	"github.com/apache/skywalking-banyandb/pkg/index"
+	"github.com/apache/skywalking-banyandb/pkg/index/posting/roaring"
 	pbv1 "github.com/apache/skywalking-banyandb/pkg/pb/v1"
 	"github.com/apache/skywalking-banyandb/pkg/query/logical"
 	logicalstream "github.com/apache/skywalking-banyandb/pkg/query/logical/stream"
@@ -305,10 +306,10 @@ func doBloom(f []string) string {
 var vtNames = map[string]pbv1.ValueType{"str": pbv1.ValueTypeStr, "int": pbv1.ValueTypeInt64, "strarr": pbv1.ValueTypeStrArr, "intarr": pbv1.ValueTypeInt64Arr}
 
 // stored dictionary values. scalar types: hex of the value. strarr: elements e1,e2 (marshalled with MarshalVarArray);
-// intarr: decimal ints i1,i2 (8-byte ordered encoding each). "_" = empty array / empty value list.
+// intarr: decimal ints i1,i2 (8-byte ordered encoding each). "_" = empty array; "~" = no values at all.
 func dictValues(vt pbv1.ValueType, s string) [][]byte {
 	var vals [][]byte
-	if s == "-" {
+	if s == "~" {
 		return vals
 	}
 	for _, v := range strings.Split(s, ";") {
@@ -731,7 +732,13 @@ func joinOrDash(p []string) string {
 
 // part: output  <filter kind> <all blocks of the part> <blocks the iterator returned> <tf bits per row token>
 func doPart(f []string) string {
+	// cfg may be "<query cfg>/<write cfg>": index rules in force when the part was written differ from the
+	// ones the query is compiled against (an index rule added after the data was written).
 	engine, cfg := f[1], f[2]
+	wcfg := cfg
+	if i := strings.IndexByte(cfg, '/'); i >= 0 {
+		cfg, wcfg = cfg[:i], cfg[i+1:]
+	}
 	sids := parseSids(f[3])
 	lo, _ := strconv.ParseInt(f[4], 10, 64)
 	hi, _ := strconv.ParseInt(f[5], 10, 64)
@@ -760,7 +767,7 @@ func doPart(f []string) string {
 			return "C" + errClass(err) + " " + bits
 		}
 		kind = fltName(flt)
-		vr := streamRows(rows, cfg)
+		vr := streamRows(rows, wcfg)
 		ab, err := stream.VerifScanPart(vr, allSids(rows), -1<<62, 1<<62, nil)
 		if err != nil {
 			return "E" + errClass(err)
@@ -961,6 +968,9 @@ func doInv(f []string) string {
 	if flt == nil || fltName(flt) == "enode" {
 		return "all " + bits
 	}
+	// keep lines independent of each other: the shared roaring.DummyPostingList singleton can be modified by a
+	// query (finding F61); the effect inside one query stays observable, the carry-over to later lines does not.
+	roaring.DummyPostingList.Reset()
 	invSeq++
 	dir := filepath.Join(scratchRoot, fmt.Sprintf("inv%d", invSeq))
 	if err := os.MkdirAll(dir, 0o755); err != nil {
